@@ -179,6 +179,7 @@ def _codegen_model(model_folder: str, f: ca.Function, library_name: str):
     file_name = os.path.relpath(os.path.join(model_folder, library_name + ".c"))
     object_name = compiler.object_filenames([file_name])[0]
     library = os.path.join(model_folder, library_name + compiler.shared_lib_extension)
+    tmp_library = library + ".tmp"
     try:
         # NOTE: For some reason running in debug mode in PyCharm (2017.1)
         # on Windows causes cl.exe to fail on its own binary name (?!) and
@@ -189,14 +190,34 @@ def _codegen_model(model_folder: str, f: ca.Function, library_name: str):
         # We do not want the "lib" prefix on POSIX systems, so we call
         # link() directly with our desired filename instead of
         # link_shared_lib().
-        compiler.link(compiler.SHARED_LIBRARY, [object_name], library, extra_preargs=linker_flags)
+        # The library only appears under its final name once it is complete.
+        compiler.link(
+            compiler.SHARED_LIBRARY, [object_name], tmp_library, extra_preargs=linker_flags
+        )
+        os.replace(tmp_library, library)
     except Exception:
         raise
     finally:
         with contextlib.suppress(FileNotFoundError):
             os.remove(file_name)
             os.remove(object_name)
+        with contextlib.suppress(OSError):
+            os.remove(tmp_library)
     return library
+
+
+def _cached_libraries(db_file: str):
+    # Shared libraries referenced by an existing cache file (best effort)
+    try:
+        with open(db_file, "rb") as f:
+            db = pickle.load(f)
+        return [
+            db[o]
+            for o in ["dae_residual", "initial_residual", "variable_metadata", "delay_arguments"]
+            if isinstance(db.get(o), str)
+        ]
+    except Exception:
+        return []
 
 
 def save_model(
@@ -213,6 +234,8 @@ def save_model(
 
     compiler_options = _merge_default_options(compiler_options)
 
+    save_id = uuid.uuid4().hex[:12]
+
     objects = {
         "dae_residual": None,
         "initial_residual": None,
@@ -223,7 +246,13 @@ def save_model(
         f = getattr(model, o + "_function")
 
         if compiler_options["codegen"]:
-            objects[o] = _codegen_model(model_folder, f, "{}_{}".format(model_name, o))
+            # A fresh name for every save: a library that is already loaded
+            # under the same path would otherwise be reused by the dynamic
+            # loader, and an existing cache file keeps pointing to complete
+            # libraries until it is replaced.
+            objects[o] = _codegen_model(
+                model_folder, f, "{}_{}_{}".format(model_name, o, save_id)
+            )
         else:
             objects[o] = f
 
@@ -317,7 +346,15 @@ def save_model(
                 os.remove(tmp_file)
             raise
 
+    old_libraries = _cached_libraries(db_file)
+
     os.replace(tmp_file, db_file)
+
+    # Remove the libraries the replaced cache file pointed to
+    for library in old_libraries:
+        if library not in objects.values():
+            with contextlib.suppress(OSError):
+                os.remove(library)
 
 
 def load_model(model_folder: str, model_name: str, compiler_options: Dict[str, str]) -> CachedModel:
@@ -391,7 +428,10 @@ def load_model(model_folder: str, model_name: str, compiler_options: Dict[str, s
         for o in ["dae_residual", "initial_residual", "variable_metadata", "delay_arguments"]:
             if isinstance(db[o], str):
                 # Path to codegen'd library
-                f = ca.external(o, db[o])
+                try:
+                    f = ca.external(o, db[o])
+                except RuntimeError:
+                    raise InvalidCacheError("Cannot load shared library {}".format(db[o]))
             else:
                 # Pickled CasADi Function; use as is
                 assert isinstance(db[o], ca.Function)
